@@ -1,4 +1,5 @@
 import Verif.Model.SSH
+import Verif.Props.C03
 /-!
   C14 — SSH certificates carry only the authorized type, identity and principals.
 
@@ -499,6 +500,59 @@ theorem adduser_crash_without_ssh_section :
 
 example : signAddUser ⟨1, s "alice", [s "alice"]⟩ =
     some ⟨s "alice-provisioner", [s "provisioner"], s "sudo useradd -m alice; nc -q0 localhost 22"⟩ := by decide
+
+/-! ## 2e. identity certificate -/
+
+/-- **identity_names.** The X.509 identity certificate that /ssh/sign returns for an `identityCSR`
+    (JWK / X5C token) names the token subject and nothing else the requester chose, except one
+    `urn:uuid:` URI taken from the CSR: common name = subject, DNS / IP / e-mail names = the
+    subject's classification, URIs = that classification's plus at most the CSR's `urn:uuid` URI;
+    the key is the identity CSR's. For every identity CSR (its other URIs are ignored, any other
+    foreign name refuses the request — `SignNames.csr_extra_refused`). -/
+theorem identity_names (prov : Prov) (r : IdReq) (c : SignNames.Cert)
+    (h : identityCert prov r = .issued c) :
+    c.cn = r.sub.raw ∧ c.key = r.csr.key ∧
+    c.dns = SignNames.ofKind .dns [r.sub] ∧ c.ips = SignNames.ofKind .ip [r.sub] ∧
+    c.emails = SignNames.ofKind .email [r.sub] ∧
+    (c.uris = SignNames.ofKind .uri [r.sub] ∨
+      ∃ u, r.uuid = some u ∧ c.uris = SignNames.ofKind .uri [r.sub] ++ [u]) := by
+  unfold identityCert at h
+  generalize hs : SignNames.sign (idCfg prov r) (idTok r) _ none _ = res at h
+  cases res with
+  | unauthorized st => simp at h
+  | refused st => simp at h
+  | error => simp at h
+  | issued c0 =>
+    simp only [SignNames.Res.issued.injEq] at h
+    subst h
+    have hp : (idCfg prov r).prov = .jwk ∨ (idCfg prov r).prov = .x5c := by
+      simp only [idCfg]; split <;> simp
+    obtain ⟨hn, hcn, hk⟩ := SignNames.names_exact _ _ _ _ _ c0 hp hs
+    have heff : SignNames.effSans (idTok r) = [r.sub] := by simp [SignNames.effSans, idTok]
+    rw [heff] at hn
+    have hv : ∀ k, SignNames.valsOf k c0.names = SignNames.ofKind k [r.sub] := by
+      intro k; rw [hn]; exact SignNames.valsOf_createSANs k [r.sub]
+    have hd : c0.dns = SignNames.ofKind .dns [r.sub] := by
+      have := hv .dns
+      simpa [SignNames.Cert.names, SignNames.valsOf_append, SignNames.valsOf_map] using this
+    have hi : c0.ips = SignNames.ofKind .ip [r.sub] := by
+      have := hv .ip
+      simpa [SignNames.Cert.names, SignNames.valsOf_append, SignNames.valsOf_map] using this
+    have he : c0.emails = SignNames.ofKind .email [r.sub] := by
+      have := hv .email
+      simpa [SignNames.Cert.names, SignNames.valsOf_append, SignNames.valsOf_map] using this
+    have hu : c0.uris = SignNames.ofKind .uri [r.sub] := by
+      have := hv .uri
+      simpa [SignNames.Cert.names, SignNames.valsOf_append, SignNames.valsOf_map] using this
+    refine ⟨by simpa [addUUID, idTok] using hcn, by simpa [addUUID] using hk, by simpa [addUUID] using hd,
+      by simpa [addUUID] using hi, by simpa [addUUID] using he, ?_⟩
+    cases hq : r.uuid with
+    | none => left; simp [addUUID, hu]
+    | some u =>
+      simp only [addUUID]
+      split
+      · left; exact hu
+      · right; exact ⟨u, rfl, by rw [hu]⟩
 
 /-! ## 3. empty principals -/
 
